@@ -71,6 +71,7 @@ def listed (v : Status) (disk : Disk) (cur : Nat) (curCode : Code) : Bool :=
   let dp := devicePolicy v
   if dp = 0 then true
   else if dp = cur then false
+  else if (disk dp).isNone then true   -- the policy of the device has been removed (repair b82d07c)
   else readPolicy disk dp != curCode
 
 /-! ### Histories -/
